@@ -35,6 +35,19 @@ type model struct {
 	Nondets map[string][]*jv `json:"nondets"`
 }
 
+var observations []string
+
+// Observe records a scalar result. Symbolically the value is evaluated under a solver model; natively the
+// actual value is printed; the two must agree (translator validation).
+func Observe(name string, v any) {
+	switch x := v.(type) {
+	case string:
+		observations = append(observations, fmt.Sprintf("%s=%x", name, x))
+	default:
+		observations = append(observations, fmt.Sprintf("%s=%v", name, x))
+	}
+}
+
 var (
 	cur      *model
 	counter  map[string]int
@@ -184,6 +197,44 @@ func decode(v reflect.Value, j *jv) {
 // Replay runs the harness named by $VX_HARNESS against the model in $VX_MODEL and reports the outcome
 // on stdout as one line "REPLAY: <outcome>".
 func Replay(t *testing.T, harnesses map[string]func()) {
+	if mp := os.Getenv("VX_MODELS"); mp != "" {
+		data, err := os.ReadFile(mp)
+		if err != nil {
+			t.Fatal(err)
+		}
+		var ms []*model
+		if err := json.Unmarshal(data, &ms); err != nil {
+			t.Fatal(err)
+		}
+		for i, m := range ms {
+			h, ok := harnesses[m.Harness]
+			if !ok {
+				fmt.Printf("REPLAY[%d]: unknown-harness %s\n", i, m.Harness)
+				continue
+			}
+			cur = m
+			counter = map[string]int{}
+			failures = nil
+			observations = nil
+			func() {
+				defer func() {
+					if r := recover(); r != nil {
+						if _, ok := r.(assumeFailed); ok {
+							fmt.Printf("REPLAY[%d]: assume-failed\n", i)
+							return
+						}
+						fmt.Printf("REPLAY[%d]: panic %v\n", i, r)
+					}
+				}()
+				h()
+				fmt.Printf("REPLAY[%d]: done\n", i)
+			}()
+			for _, o := range observations {
+				fmt.Printf("OBSERVE[%d]: %s\n", i, o)
+			}
+		}
+		return
+	}
 	path := os.Getenv("VX_MODEL")
 	if path == "" {
 		t.Skip("no VX_MODEL")
